@@ -23,7 +23,7 @@ MANIFEST = {
     'note': 'Speeds taken non-negative for the order proofs; extension link by link is C06-7 (speed points are among pass 1\'s vectors).',
 }
 EXPLANATION = 'min_speed spec, seed, add_speeds aggregate, speed_set_applies arm tables, per-site upper-bound obligations on insert_speed.'
-RULES = ['C02-1.min_speed', 'C02-2.seed', 'C02-3.add_speeds', 'C02-4.applies', 'C02-5.sites', 'C02-6.search', 'C02-7.select', 'C02-8.base']
+RULES = ['C02-1.min_speed', 'C02-2.seed', 'C02-3.add_speeds', 'C02-4.applies', 'C02-5.sites', 'C02-6.search', 'C02-7.select', 'C02-8.base', 'C02-9.guards']
 ASSUMPTIONS = ['speeds are non-negative in the order proofs', 'idx_start / idx_end are the positions their search loops are meant to find (not decided)']
 
 
@@ -40,3 +40,7 @@ def run(ctx):
     from .common import RuleProxy
     from . import C06
     C06.run(RuleProxy(ctx, {'C06-1.linkpoints': 'C02-8.base'}))
+    # the order proofs above take speeds as non-negative; flagged restrictions are stored with a negative sign and compared by magnitude
+    # through min_speed only.  The guards that decide whether a point is inserted at all must therefore be the sign-agnostic `!=` tests
+    # of the canonical-form clause (an ordering test on the raw values drops a stricter restriction nested in a flagged one): C13-8, shared
+    SP.canonical(RuleProxy(ctx, {'C13-8.canonical': 'C02-9.guards'}))
